@@ -369,7 +369,7 @@ func checkC13(r *vlib.Run) int {
 	r.Set("cancellations_returned", res.stats["cancellations"])
 	r.Set("max_return_latency_us_informational", res.stats["max:return_latency_us"])
 	r.Set("events_before_return_in_busy_read", res.stats["events_before_return"])
-	r.Set("states", res.distinct.Keys())
+	r.Set("worker_state_combinations_reached", res.distinct.Keys())
 	r.Set("build", "-race")
 	r.Require(res.distinct.Len() == len(c13Scenarios()), fmt.Sprintf("only %d of %d worker/state combinations were reached", res.distinct.Len(), len(c13Scenarios())))
 	r.Assumptions = []string{"each blocking state is confirmed from the goroutine dump before cancel() is called; a worker that has not returned after the watchdog is a violation only if it is parked, otherwise inconclusive",
